@@ -463,7 +463,992 @@ theorem scanRegex_cut (hR : CutStable R) (r k : Nat) (e : Entry ι) (hwf : e.WF 
   rw [hclaim1, hclaim2]
   cases R.part r (e.pre ++ ra) <;> simp
 
+theorem scanRegex_out (hR : CutStable R) (r k : Nat) (e : Entry ι) (hwf : e.WF eng)
+    (rest : Units) (w len : Nat) (hlen : rest.length + w = len) (j : Nat) (x : Entry ι)
+    (hx : (j, x) ∈ scanRegex R eng.adv md r k e rest w len) :
+    (x.inc = false ∧ x.idx = 0 ∧ x.pre = [] ∧ ∃ m, R.full r (e.pre ++ rest) = some m ∧ e.pre.length < m ∧
+        m ≤ (e.pre ++ rest).length ∧ j = k + (m - e.pre.length) * 8 ∧
+        x.item = eng.adv e.item (mkLeaf md ((e.pre ++ rest).take m))) ∨
+    (x.inc = true ∧ x.item = e.item ∧ x.pre = e.pre ++ rest ∧ x.idx = (e.pre ++ rest).length ∧
+        j = k + rest.length * 8 ∧ R.part r (e.pre ++ rest) ≠ none) := by
+  have hidx := hwf.idx_eq
+  rw [scanRegex_nf eng R md hR r k e hwf rest w len hlen, List.mem_append] at hx
+  rcases hx with hx | hx
+  · left
+    unfold advOut at hx
+    cases hf : R.full r (e.pre ++ rest) with
+    | none => simp [hf] at hx
+    | some m =>
+      by_cases hm : m ≤ e.pre.length
+      · simp [hf, hm] at hx
+      · simp only [hf, hm, if_false, List.mem_singleton, Prod.mk.injEq] at hx
+        obtain ⟨rfl, rfl⟩ := hx
+        exact ⟨rfl, rfl, rfl, m, rfl, by omega, hR.full_le r _ m hf, by rw [hidx], rfl⟩
+  · right
+    unfold incOut at hx
+    cases hp : R.part r (e.pre ++ rest) with
+    | none => simp [hp] at hx
+    | some q =>
+      have hq := hR.part_len r _ q hp
+      subst hq
+      simp only [hp, List.mem_singleton, Prod.mk.injEq, List.take_length] at hx
+      obtain ⟨rfl, rfl⟩ := hx
+      refine ⟨rfl, rfl, rfl, rfl, ?_, by simp⟩
+      simp only [List.length_append]; omega
+
 end regex
+
+/-! ### bits -/
+
+section bits
+variable (eng : Engine ι)
+
+theorem scanBit_out (b : Bool) (k : Nat) (e : Entry ι) (rest : Units) (j : Nat) (x : Entry ι)
+    (hx : (j, x) ∈ scanBit eng.adv b k e rest) :
+    j = k + 1 ∧ x.inc = e.inc ∧ x.idx = e.idx ∧ x.pre = e.pre ∧ rest ≠ [] := by
+  unfold scanBit at hx
+  cases rest with
+  | nil => simp at hx
+  | cons u rs =>
+    simp only [List.head?_cons] at hx
+    split at hx
+    · simp only [List.mem_singleton, Prod.mk.injEq] at hx
+      obtain ⟨rfl, rfl⟩ := hx
+      exact ⟨rfl, rfl, rfl, rfl, by simp⟩
+    · simp at hx
+
+theorem scanBit_append (b : Bool) (k : Nat) (e : Entry ι) (ra rb : Units) (hra : ra ≠ []) :
+    scanBit eng.adv b k e (ra ++ rb) = scanBit eng.adv b k e ra := by
+  cases ra with
+  | nil => exact absurd rfl hra
+  | cons u rs => simp [scanBit]
+
+end bits
+
+/-! ### one state, all terminal kinds -/
+
+section entry
+variable (eng : Engine ι) (R : ROracle) (md : Mode)
+
+theorem wantsBytes_of_lit {e : Entry ι} {l : Units} (h : eng.want e.item = some (.lit l)) : wantsBytes eng e :=
+  Or.inl ⟨l, h⟩
+theorem wantsBytes_of_regex {e : Entry ι} {r : Nat} (h : eng.want e.item = some (.regex r)) : wantsBytes eng e :=
+  Or.inr ⟨r, h⟩
+
+/-- targets and well-formedness of everything one scan produces -/
+theorem scanEntry_out (hR : CutStable R) (k : Nat) (e : Entry ι) (hwf : e.WF eng)
+    (rest : Units) (w len : Nat) (hlen : rest.length + w = len) (j : Nat) (x : Entry ι)
+    (hx : (j, x) ∈ scanEntry eng R md k e rest w len) :
+    x.WF eng ∧ (x.inc = true → j = k + 8 * rest.length ∧ wantsBytes eng e) ∧
+      (wantsBytes eng e → j ≤ k + 8 * rest.length) ∧ (¬ wantsBytes eng e → j = k + 1 ∧ rest ≠ []) := by
+  unfold scanEntry at hx
+  cases hwant : eng.want e.item with
+  | none => simp [hwant] at hx
+  | some t =>
+    cases t with
+    | bit b =>
+      simp only [hwant] at hx
+      obtain ⟨hj, hinc, hidx, hpre, hne⟩ := scanBit_out eng b k e rest j x hx
+      have hnb : ¬ wantsBytes eng e := by
+        rintro (⟨l, h⟩ | ⟨r, h⟩) <;> simp [hwant] at h
+      have heinc : e.inc = false := by
+        cases hi : e.inc with
+        | false => rfl
+        | true => exact absurd hwant ((hwf.2 hi).2.2 b)
+      obtain ⟨h1, h2⟩ := hwf.1 heinc
+      have hfalse : x.inc = true → False := fun h => by rw [hinc, heinc] at h; cases h
+      have hidx0 : x.idx = 0 := by rw [hidx, h1]
+      have hpre0 : x.pre = [] := by rw [hpre, h2]
+      exact ⟨⟨fun _ => ⟨hidx0, hpre0⟩, fun h => (hfalse h).elim⟩, fun h => (hfalse h).elim,
+        fun h => absurd h hnb, fun _ => ⟨hj, hne⟩⟩
+    | lit l =>
+      simp only [hwant] at hx
+      have hwb := wantsBytes_of_lit eng hwant
+      rcases scanLit_out eng md l k e hwf rest w len j x hx with
+        ⟨hi, hidx, hpre, hj, hpfx, _⟩ | ⟨hi, hitem, hpre, hidx, hj, hlt, _⟩
+      · have hfalse : x.inc = true → False := fun h => by rw [hi] at h; cases h
+        refine ⟨⟨fun _ => ⟨hidx, hpre⟩, fun h => (hfalse h).elim⟩, fun h => (hfalse h).elim, fun _ => ?_,
+          fun h => absurd hwb h⟩
+        have := hpfx.length_le
+        simp only [List.length_append] at this
+        omega
+      · have hfalse : x.inc = false → False := fun h => by rw [hi] at h; cases h
+        have hwf2 : (∀ l', eng.want x.item = some (.lit l') → x.pre.length < l'.length) ∧
+            (∀ b, eng.want x.item ≠ some (.bit b)) := by
+          constructor
+          · intro l' hl'
+            rw [hitem, hwant] at hl'
+            cases hl'
+            rw [hpre]; exact hlt
+          · intro b hb
+            rw [hitem, hwant] at hb
+            cases hb
+        refine ⟨⟨fun h => (hfalse h).elim, fun _ => ⟨?_, hwf2⟩⟩, fun _ => ⟨?_, hwb⟩, fun _ => ?_,
+          fun h => absurd hwb h⟩
+        · rw [hidx, hpre]
+        · omega
+        · omega
+    | regex r =>
+      simp only [hwant] at hx
+      have hwb := wantsBytes_of_regex eng hwant
+      rcases scanRegex_out eng R md hR r k e hwf rest w len hlen j x hx with
+        ⟨hi, hidx, hpre, m, _, hlt, hle, hj, _⟩ | ⟨hi, hitem, hpre, hidx, hj, _⟩
+      · have hfalse : x.inc = true → False := fun h => by rw [hi] at h; cases h
+        refine ⟨⟨fun _ => ⟨hidx, hpre⟩, fun h => (hfalse h).elim⟩, fun h => (hfalse h).elim, fun _ => ?_,
+          fun h => absurd hwb h⟩
+        simp only [List.length_append] at hle
+        omega
+      · have hfalse : x.inc = false → False := fun h => by rw [hi] at h; cases h
+        have hwf2 : (∀ l', eng.want x.item = some (.lit l') → x.pre.length < l'.length) ∧
+            (∀ b, eng.want x.item ≠ some (.bit b)) := by
+          constructor
+          · intro l' hl'
+            rw [hitem, hwant] at hl'
+            cases hl'
+          · intro b hb
+            rw [hitem, hwant] at hb
+            cases hb
+        refine ⟨⟨fun h => (hfalse h).elim, fun _ => ⟨?_, hwf2⟩⟩, fun _ => ⟨?_, hwb⟩, fun _ => ?_,
+          fun h => absurd hwb h⟩
+        · rw [hidx, hpre]
+        · omega
+        · omega
+
+/-- resuming a parked state with a non-empty fragment only reaches later columns -/
+theorem resume_target_gt (hR : CutStable R) (bd : Nat) (e0 : Entry ι) (hwf : e0.WF eng) (hinc : e0.inc = true)
+    (b : Units) (hb : b ≠ []) (j : Nat) (x : Entry ι)
+    (hx : (j, x) ∈ scanEntry eng R md bd e0 b 0 b.length) : bd < j := by
+  have hb0 : 0 < b.length := List.length_pos_iff.mpr hb
+  obtain ⟨hidx, hlit, hbit⟩ := hwf.2 hinc
+  unfold scanEntry at hx
+  cases hwant : eng.want e0.item with
+  | none => simp [hwant] at hx
+  | some t =>
+    cases t with
+    | bit bb => exact absurd hwant (hbit bb)
+    | lit l =>
+      simp only [hwant] at hx
+      have := hlit l hwant
+      rcases scanLit_out eng md l bd e0 hwf b 0 b.length j x hx with
+        ⟨_, _, _, hj, _, _⟩ | ⟨_, _, _, _, hj, _, _⟩ <;> omega
+    | regex r =>
+      simp only [hwant] at hx
+      rcases scanRegex_out eng R md hR r bd e0 hwf b 0 b.length (by omega) j x hx with
+        ⟨_, _, _, m, _, hlt, _, hj, _⟩ | ⟨_, _, _, _, hj, _⟩ <;> omega
+
+/-- **cut lemma**: scanning a state with `ra ++ b` = scanning it with `ra` and resuming what was parked
+    at the end of `ra` with `b` -/
+theorem scanEntry_cut (hR : CutStable R) (k : Nat) (e : Entry ι) (hwf : e.WF eng)
+    (ra b : Units) (hra : ra ≠ []) (hb : b ≠ []) (w n : Nat) (hlen : ra.length + w = n) (bd : Nat)
+    (hbd : wantsBytes eng e → bd = k + 8 * ra.length) :
+    scanEntry eng R md k e (ra ++ b) w (n + b.length) =
+      resumeAt eng R md bd b (scanEntry eng R md k e ra w n) := by
+  unfold scanEntry
+  cases hwant : eng.want e.item with
+  | none => simp [resumeAt_nil]
+  | some t =>
+    cases t with
+    | bit bb =>
+      simp only []
+      rw [scanBit_append eng bb k e ra b hra]
+      -- nothing a bit scan produces is parked
+      have heinc : e.inc = false := by
+        cases hi : e.inc with
+        | false => rfl
+        | true => exact absurd hwant ((hwf.2 hi).2.2 bb)
+      unfold resumeAt
+      have : ∀ p ∈ scanBit eng.adv bb k e ra, ¬ (p.2.inc = true ∧ p.1 = bd) := by
+        rintro ⟨j, x⟩ hp ⟨h1, _⟩
+        have := (scanBit_out eng bb k e ra j x hp).2.1
+        rw [this, heinc] at h1
+        cases h1
+      generalize scanBit eng.adv bb k e ra = outs at this ⊢
+      induction outs with
+      | nil => rfl
+      | cons p ps ih =>
+        have hp := this p (by simp)
+        have ih' := ih (fun q hq => this q (by simp [hq]))
+        simp only [List.flatMap_cons, hp, if_false]
+        rw [← ih']
+        rfl
+    | lit l =>
+      simp only []
+      rw [hbd (wantsBytes_of_lit eng hwant)]
+      exact scanLit_cut eng R md l k e hwf hwant ra b hra hb w n hlen
+    | regex r =>
+      simp only []
+      rw [hbd (wantsBytes_of_regex eng hwant)]
+      exact scanRegex_cut eng R md hR r k e hwf hwant ra b hra hb w n hlen
+
+/-- the word index and the fragment length only matter through what is left of the fragment -/
+theorem scanEntry_shift (k : Nat) (e : Entry ι) (a b : Units) (hb : b ≠ []) (w : Nat) :
+    scanEntry eng R md k e ((a ++ b).drop (a.length + w)) (a.length + w) (a ++ b).length =
+      scanEntry eng R md k e (b.drop w) w b.length := by
+  have hb0 : 0 < b.length := List.length_pos_iff.mpr hb
+  have hdrop : (a ++ b).drop (a.length + w) = b.drop w := by
+    rw [List.drop_append]
+    simp
+  rw [hdrop]
+  unfold scanEntry
+  cases eng.want e.item with
+  | none => rfl
+  | some t =>
+    cases t with
+    | bit bb => rfl
+    | lit l =>
+      simp only [scanLit, List.length_append]
+      have : (a.length + w + l.length - e.idx < a.length + b.length) ↔ (w + l.length - e.idx < b.length) := by
+        omega
+      simp only [this]
+    | regex r =>
+      simp only [scanRegex, List.length_append]
+      have : ∀ q : Nat, (q + (a.length + w) < a.length + b.length) ↔ (q + w < b.length) := by
+        intro q; omega
+      simp only [this]
+
+end entry
+
+/-! ### laws assumed of the abstract chart closure -/
+
+/-- What the theorems need of the predict/complete closure.  For the real parser these say:
+    incomplete states are only ever scanned (`close_inc`); what a column's closure contains depends only on
+    the *sets* of ordinary states of the earlier columns and of the seed, not on their order or on parked
+    incomplete states (`close_core`: `Column.add` deduplicates, `find_dot` looks up states by the
+    non-terminal after the dot); prediction and completion produce states with reset flags (`close_wf`). -/
+structure Engine.Lawful (eng : Engine ι) : Prop where
+  close_inc : ∀ d s e, e.inc = true → (e ∈ eng.close d s ↔ e ∈ s)
+  close_core : ∀ d d' s s', All2 CoreEq d d' → CoreEq s s' → CoreEq (eng.close d s) (eng.close d' s')
+  close_wf : ∀ d s, (∀ e ∈ s, e.WF eng) → ∀ e ∈ eng.close d s, e.WF eng
+  trees_core : ∀ c c', CoreEq c c' → SetEq (eng.trees c) (eng.trees c')
+
+/-- additional laws for `can_continue`: when the completion-only closure of the seed has nothing unfinished,
+    prediction has nothing to start from, so no state of the closed column waits for a terminal; an empty
+    column stays empty and holds no parse -/
+structure Engine.LawfulCC (eng : Engine ι) : Prop where
+  close_stuck : ∀ d s, (∀ e ∈ eng.completeOnly d s, e.inc = false ∧ eng.finished e.item = true) →
+    ∀ e ∈ eng.close d s, eng.want e.item = none
+  close_nil : ∀ d, eng.close d [] = []
+  trees_nil : eng.trees [] = []
+
+theorem all2_setEq_coreEq : ∀ {d d' : List (Col ι)}, All2 SetEq d d' → All2 CoreEq d d'
+  | _, _, .nil => .nil
+  | _, _, .cons h t => .cons h.coreEq (all2_setEq_coreEq t)
+
+theorem all2_setEq_refl : ∀ d : List (Col ι), All2 SetEq d d
+  | [] => .nil
+  | c :: d => .cons (SetEq.refl c) (all2_setEq_refl d)
+
+theorem all2_get {α β : Type} {r : α → β → Prop} : ∀ {x : List α} {y : List β}, All2 r x y →
+    ∀ (k : Nat) (c : β), y[k]? = some c → ∃ c', x[k]? = some c' ∧ r c' c
+  | _, _, .nil, k, c, h => by simp at h
+  | _, _, .cons (a := a) hr t, 0, c, h => by
+    simp only [List.getElem?_cons_zero, Option.some.injEq] at h
+    subst h
+    exact ⟨a, by simp, hr⟩
+  | _, _, .cons _ t, k + 1, c, h => by
+    simp only [List.getElem?_cons_succ] at h ⊢
+    exact all2_get t k c h
+
+theorem close_setEq {eng : Engine ι} (hL : eng.Lawful) {d d' : List (Col ι)} {s s' : Col ι}
+    (hd : All2 CoreEq d d') (hs : SetEq s s') : SetEq (eng.close d s) (eng.close d' s') := by
+  intro x
+  cases hi : x.inc with
+  | true => rw [hL.close_inc d s x hi, hL.close_inc d' s' x hi]; exact hs x
+  | false =>
+    have := hL.close_core d d' s s' hd hs.coreEq x
+    simp only [mem_core, hi, and_true] at this
+    exact this
+
+theorem mem_seedAt {pend : List (Nat × Entry ι)} {k : Nat} {e : Entry ι} :
+    e ∈ seedAt pend k ↔ (k, e) ∈ pend := by
+  unfold seedAt
+  simp only [List.mem_map, List.mem_filter, beq_iff_eq]
+  constructor
+  · rintro ⟨⟨j, e'⟩, ⟨hm, hj⟩, he⟩
+    simp only at hj he
+    subst hj he
+    exact hm
+  · intro h
+    exact ⟨(k, e), ⟨h, rfl⟩, rfl⟩
+
+/-! ### states of the incremental parser -/
+
+/-- same ordinary states in every processed column, same scheduled states from the current column on
+    ("same complete items, same resumable items") -/
+structure PState.Equiv (s t : PState ι) : Prop where
+  done : All2 CoreEq s.done t.done
+  pend : ∀ j e, s.done.length ≤ j → ((j, e) ∈ s.pend ↔ (j, e) ∈ t.pend)
+
+theorem PState.Equiv.refl (s : PState ι) : s.Equiv s := ⟨forall2_coreEq_refl _, fun _ _ _ => Iff.rfl⟩
+
+theorem PState.Equiv.symm {s t : PState ι} (h : s.Equiv t) : t.Equiv s :=
+  ⟨forall2_coreEq_symm h.done, fun j e hj => (h.pend j e (by rw [forall2_length h.done]; exact hj)).symm⟩
+
+theorem PState.Equiv.trans {s t u : PState ι} (h : s.Equiv t) (h' : t.Equiv u) : s.Equiv u :=
+  ⟨forall2_coreEq_trans h.done h'.done, fun j e hj =>
+    (h.pend j e hj).trans (h'.pend j e (by rw [← forall2_length h.done]; exact hj))⟩
+
+def PState.WF (eng : Engine ι) (s : PState ι) : Prop := ∀ p ∈ s.pend, p.2.WF eng
+
+/-- nothing is scheduled beyond the current column (true after every `consume`) -/
+def PState.Settled (s : PState ι) : Prop := ∀ p ∈ s.pend, p.1 ≤ s.done.length
+
+/-- literals and regexes are only ever scanned at byte boundaries (bit fields fill whole bytes) -/
+def PState.Aligned (eng : Engine ι) (s : PState ι) : Prop :=
+  ∀ k col, s.done[k]? = some col → k % 8 ≠ 0 → ∀ e ∈ col, ¬ wantsBytes eng e
+
+section runs
+variable (eng : Engine ι) (R : ROracle) (md : Mode)
+
+theorem procCol_done (word : Units) (w : Nat) (s : PState ι) :
+    (procCol eng R md word w s).done = s.done ++ [eng.close s.done (seedAt s.pend s.done.length)] := rfl
+
+theorem procCol_pend (word : Units) (w : Nat) (s : PState ι) :
+    (procCol eng R md word w s).pend = s.pend ++
+      scanCol eng R md (eng.close s.done (seedAt s.pend s.done.length)) s.done.length word w := rfl
+
+theorem procCol_eq (word : Units) (w : Nat) (s : PState ι) (k : Nat) (hk : s.done.length = k) :
+    procCol eng R md word w s =
+      ⟨s.done ++ [eng.close s.done (seedAt s.pend k)],
+        s.pend ++ scanCol eng R md (eng.close s.done (seedAt s.pend k)) k word w⟩ := by
+  subst hk; rfl
+
+theorem feedFrom_succ_end (word : Units) : ∀ (n i : Nat) (s : PState ι),
+    feedFrom eng R md word i (n + 1) s =
+      procCol eng R md word ((i + n) / 8) (feedFrom eng R md word i n s)
+  | 0, i, s => by simp [feedFrom]
+  | n + 1, i, s => by
+    have := feedFrom_succ_end word n (i + 1) (procCol eng R md word (i / 8) s)
+    simp only [feedFrom] at this ⊢
+    rw [this]
+    have : i + 1 + n = i + (n + 1) := by omega
+    rw [this]
+
+theorem feedFrom_add (word : Units) : ∀ (p q i : Nat) (s : PState ι),
+    feedFrom eng R md word i (p + q) s =
+      feedFrom eng R md word (i + p) q (feedFrom eng R md word i p s)
+  | 0, q, i, s => by simp [feedFrom]
+  | p + 1, q, i, s => by
+    have : p + 1 + q = (p + q) + 1 := by omega
+    rw [this]
+    simp only [feedFrom]
+    rw [feedFrom_add word p q (i + 1)]
+    have : i + 1 + p = i + (p + 1) := by omega
+    rw [this]
+
+theorem feedFrom_done_length (word : Units) : ∀ (n i : Nat) (s : PState ι),
+    (feedFrom eng R md word i n s).done.length = s.done.length + n
+  | 0, _, _ => rfl
+  | n + 1, i, s => by
+    simp only [feedFrom]
+    rw [feedFrom_done_length word n, procCol_done]
+    simp only [List.length_append, List.length_singleton]
+    omega
+
+/-- processed columns are never touched again -/
+theorem feedFrom_done_get (word : Units) : ∀ (n i : Nat) (s : PState ι) (k : Nat) (c : Col ι),
+    s.done[k]? = some c → (feedFrom eng R md word i n s).done[k]? = some c
+  | 0, _, _, _, _, h => h
+  | n + 1, i, s, k, c, h => by
+    simp only [feedFrom]
+    apply feedFrom_done_get word n
+    rw [procCol_done]
+    have hk : k < s.done.length := by
+      rcases Nat.lt_or_ge k s.done.length with hk | hk
+      · exact hk
+      · rw [List.getElem?_eq_none hk] at h; cases h
+    rw [List.getElem?_append_left hk]
+    exact h
+
+/-! #### congruence -/
+
+theorem mem_scanCol {col : Col ι} {k : Nat} {word : Units} {w : Nat} {p : Nat × Entry ι} :
+    p ∈ scanCol eng R md col k word w ↔
+      ∃ e ∈ col, p ∈ scanEntry eng R md k e (word.drop w) w word.length := by
+  simp [scanCol, List.mem_flatMap]
+
+theorem procCol_congr (hL : eng.Lawful) (word : Units) (w : Nat) {s t : PState ι} (h : s.Equiv t) :
+    (procCol eng R md word w s).Equiv (procCol eng R md word w t) := by
+  have hlen := forall2_length h.done
+  have hseed : SetEq (seedAt s.pend s.done.length) (seedAt t.pend t.done.length) := by
+    intro e
+    rw [mem_seedAt, mem_seedAt, ← hlen]
+    exact h.pend _ e (Nat.le_refl _)
+  have hcol := close_setEq hL h.done hseed
+  constructor
+  · rw [procCol_done, procCol_done]
+    exact forall2_snoc h.done hcol.coreEq
+  · intro j e hj
+    rw [procCol_done] at hj
+    simp only [List.length_append, List.length_singleton] at hj
+    rw [procCol_pend, procCol_pend, List.mem_append, List.mem_append, mem_scanCol, mem_scanCol, ← hlen]
+    rw [h.pend j e (by omega)]
+    constructor
+    · rintro (h1 | ⟨e', he', h2⟩)
+      · exact Or.inl h1
+      · exact Or.inr ⟨e', by rw [hlen]; exact (hcol e').mp he', h2⟩
+    · rintro (h1 | ⟨e', he', h2⟩)
+      · exact Or.inl h1
+      · exact Or.inr ⟨e', (hcol e').mpr (by rw [hlen] at he'; exact he'), h2⟩
+
+theorem feedFrom_congr (hL : eng.Lawful) (word : Units) : ∀ (n i : Nat) {s t : PState ι}, s.Equiv t →
+    (feedFrom eng R md word i n s).Equiv (feedFrom eng R md word i n t)
+  | 0, _, _, _, h => h
+  | n + 1, i, _, _, h => by
+    simp only [feedFrom]
+    exact feedFrom_congr hL word n (i + 1) (procCol_congr eng R md hL word (i / 8) h)
+
+theorem feed_congr (hL : eng.Lawful) (word : Units) {s t : PState ι} (h : s.Equiv t) :
+    (feed eng R md s word).Equiv (feed eng R md t word) :=
+  feedFrom_congr eng R md hL word _ 0 h
+
+theorem lastCol_coreEq (hL : eng.Lawful) {s t : PState ι} (h : s.Equiv t) :
+    SetEq (lastCol eng s) (lastCol eng t) := by
+  have hlen := forall2_length h.done
+  apply close_setEq hL h.done
+  intro e
+  rw [mem_seedAt, mem_seedAt, ← hlen]
+  exact h.pend _ e (Nat.le_refl _)
+
+theorem completeParses_congr (hL : eng.Lawful) {s t : PState ι} (h : s.Equiv t) :
+    SetEq (completeParses eng s) (completeParses eng t) :=
+  hL.trees_core _ _ (lastCol_coreEq eng hL h).coreEq
+
+theorem resumable_congr {s t : PState ι} (h : s.Equiv t) : SetEq (resumable s) (resumable t) := by
+  have hlen := forall2_length h.done
+  intro e
+  simp only [resumable, List.mem_filter, mem_seedAt, ← hlen]
+  rw [h.pend _ e (Nat.le_refl _)]
+
+/-! #### the second fragment, seen from the whole input -/
+
+theorem procCol_shift (a b : Units) (hb : b ≠ []) (w : Nat) (s : PState ι) :
+    procCol eng R md (a ++ b) (a.length + w) s = procCol eng R md b w s := by
+  unfold procCol scanCol
+  simp only [scanEntry_shift eng R md _ _ a b hb w]
+
+theorem feedFrom_shift (hL : eng.Lawful) (a b : Units) (hb : b ≠ []) : ∀ (q i : Nat) {s t : PState ι},
+    s.Equiv t →
+    (feedFrom eng R md (a ++ b) (8 * a.length + i) q s).Equiv (feedFrom eng R md b i q t)
+  | 0, _, _, _, h => h
+  | q + 1, i, s, t, h => by
+    simp only [feedFrom]
+    have hw : (8 * a.length + i) / 8 = a.length + i / 8 := by omega
+    rw [hw, procCol_shift eng R md a b hb]
+    have := feedFrom_shift hL a b hb q (i + 1) (procCol_congr eng R md hL b (i / 8) h)
+    have hi : 8 * a.length + i + 1 = 8 * a.length + (i + 1) := by omega
+    rw [hi]
+    exact this
+
+/-! #### resumption, membership -/
+
+theorem mem_resumeAt {bd : Nat} {b : Units} {outs : List (Nat × Entry ι)} {j : Nat} {x : Entry ι} :
+    (j, x) ∈ resumeAt eng R md bd b outs ↔
+      ((j, x) ∈ outs ∧ ¬ (x.inc = true ∧ j = bd)) ∨
+      ∃ e0, (bd, e0) ∈ outs ∧ e0.inc = true ∧ (j, x) ∈ scanEntry eng R md bd e0 b 0 b.length := by
+  unfold resumeAt
+  rw [List.mem_flatMap]
+  constructor
+  · rintro ⟨⟨j', e'⟩, hp, hx⟩
+    by_cases hc : (e'.inc = true ∧ j' = bd)
+    · simp only [hc, and_self, if_true] at hx
+      obtain ⟨h1, h2⟩ := hc
+      subst h2
+      exact Or.inr ⟨e', hp, h1, hx⟩
+    · rw [if_neg hc] at hx
+      simp only [List.mem_singleton, Prod.mk.injEq] at hx
+      obtain ⟨rfl, rfl⟩ := hx
+      exact Or.inl ⟨hp, hc⟩
+  · rintro (⟨hp, hc⟩ | ⟨e0, hp, hi, hx⟩)
+    · exact ⟨(j, x), hp, by rw [if_neg hc]; simp⟩
+    · exact ⟨(bd, e0), hp, by simp only [hi, and_self, if_true]; exact hx⟩
+
+/-- before the cut, resumption changes nothing -/
+theorem mem_resumeAt_lt (hR : CutStable R) {bd : Nat} {b : Units} (hb : b ≠ []) {outs : List (Nat × Entry ι)}
+    (hwf : ∀ p ∈ outs, p.2.WF eng) {j : Nat} {x : Entry ι} (hj : j < bd) :
+    (j, x) ∈ resumeAt eng R md bd b outs ↔ (j, x) ∈ outs := by
+  rw [mem_resumeAt]
+  constructor
+  · rintro (⟨h, _⟩ | ⟨e0, hp, hi, hx⟩)
+    · exact h
+    · have := resume_target_gt eng R md hR bd e0 (hwf _ hp) hi b hb j x hx
+      omega
+  · intro h
+    exact Or.inl ⟨h, fun hc => by omega⟩
+
+/-- at the cut, exactly the ordinary states stay -/
+theorem mem_resumeAt_eq (hR : CutStable R) {bd : Nat} {b : Units} (hb : b ≠ []) {outs : List (Nat × Entry ι)}
+    (hwf : ∀ p ∈ outs, p.2.WF eng) {x : Entry ι} :
+    (bd, x) ∈ resumeAt eng R md bd b outs ↔ ((bd, x) ∈ outs ∧ x.inc = false) := by
+  rw [mem_resumeAt]
+  constructor
+  · rintro (⟨h, hc⟩ | ⟨e0, hp, hi, hx⟩)
+    · refine ⟨h, ?_⟩
+      cases hxi : x.inc with
+      | false => rfl
+      | true => exact absurd ⟨hxi, rfl⟩ hc
+    · have := resume_target_gt eng R md hR bd e0 (hwf _ hp) hi b hb bd x hx
+      omega
+  · rintro ⟨h, hi⟩
+    exact Or.inl ⟨h, fun hc => by rw [hi] at hc; cases hc.1⟩
+
+/-! #### the two runs, before the cut -/
+
+/-- run A (the whole input `a ++ b`) and run B (fragment `a` only) after the same number of columns
+    before the cut at column `bd`: same columns, and A's schedule is B's schedule with the parked states
+    already resumed with `b` -/
+structure Sim (bd : Nat) (b : Units) (sA sB : PState ι) : Prop where
+  done : All2 SetEq sA.done sB.done
+  pend : ∀ j x, sA.done.length ≤ j → ((j, x) ∈ sA.pend ↔ (j, x) ∈ resumeAt eng R md bd b sB.pend)
+  wfB : sB.WF eng
+  leB : ∀ p ∈ sB.pend, p.1 ≤ bd
+
+theorem sim_init (s : PState ι) (hwf : s.WF eng) (hset : s.Settled) (bd : Nat) (hbd : s.done.length < bd)
+    (b : Units) : Sim eng R md bd b s s := by
+  refine ⟨all2_setEq_refl _, ?_, hwf, fun p hp => by have := hset p hp; omega⟩
+  intro j x _
+  rw [mem_resumeAt]
+  constructor
+  · intro h
+    have := hset _ h
+    exact Or.inl ⟨h, fun hc => by simp only at this; omega⟩
+  · rintro (⟨h, _⟩ | ⟨e0, hp, _, _⟩)
+    · exact h
+    · have := hset _ hp
+      simp only at this; omega
+
+/-- one column before the cut -/
+theorem sim_step (hL : eng.Lawful) (hR : CutStable R) (a b : Units) (hb : b ≠ []) (k0 p : Nat)
+    (hp : p < 8 * a.length) (hk0 : k0 % 8 = 0) {sA sB : PState ι}
+    (h : Sim eng R md (k0 + 8 * a.length) b sA sB) (hk : sA.done.length = k0 + p)
+    (hal : (k0 + p) % 8 ≠ 0 → ∀ e ∈ eng.close sA.done (seedAt sA.pend (k0 + p)), ¬ wantsBytes eng e) :
+    Sim eng R md (k0 + 8 * a.length) b (procCol eng R md (a ++ b) (p / 8) sA)
+      (procCol eng R md a (p / 8) sB) := by
+  have hlen := forall2_length h.done
+  have hkB : sB.done.length = k0 + p := by rw [← hlen]; exact hk
+  have hw : p / 8 < a.length := by omega
+  rw [procCol_eq eng R md _ _ sA _ hk, procCol_eq eng R md _ _ sB _ hkB]
+  -- same seed, same closed column
+  have hseed : SetEq (seedAt sA.pend (k0 + p)) (seedAt sB.pend (k0 + p)) := by
+    intro e
+    rw [mem_seedAt, mem_seedAt, h.pend _ e (by omega)]
+    exact mem_resumeAt_lt eng R md hR hb h.wfB (by omega)
+  have hcol := close_setEq hL (all2_setEq_coreEq h.done) hseed
+  have hwfcol : ∀ e ∈ eng.close sB.done (seedAt sB.pend (k0 + p)), e.WF eng := by
+    apply hL.close_wf
+    intro e he
+    rw [mem_seedAt] at he
+    exact h.wfB _ he
+  -- what is left of `a`
+  have hra : a.drop (p / 8) ≠ [] := by
+    intro hnil
+    have := congrArg List.length hnil
+    simp only [List.length_drop, List.length_nil] at this
+    omega
+  have hralen : (a.drop (p / 8)).length + p / 8 = a.length := by
+    simp only [List.length_drop]; omega
+  have hdropA : (a ++ b).drop (p / 8) = a.drop (p / 8) ++ b :=
+    List.drop_append_of_le_length (by omega)
+  have hal8 : ∀ e ∈ eng.close sB.done (seedAt sB.pend (k0 + p)), wantsBytes eng e → (k0 + p) % 8 = 0 := by
+    intro e he hwb
+    rcases Nat.eq_zero_or_pos ((k0 + p) % 8) with h0 | h0
+    · exact h0
+    · exact absurd hwb (hal (by omega) e ((hcol e).mpr he))
+  -- the cut lemma for every state of the column
+  have hcut : ∀ e ∈ eng.close sB.done (seedAt sB.pend (k0 + p)),
+      scanEntry eng R md (k0 + p) e ((a ++ b).drop (p / 8)) (p / 8) (a ++ b).length =
+        resumeAt eng R md (k0 + 8 * a.length) b
+          (scanEntry eng R md (k0 + p) e (a.drop (p / 8)) (p / 8) a.length) := by
+    intro e he
+    rw [hdropA, List.length_append]
+    apply scanEntry_cut eng R md hR (k0 + p) e (hwfcol e he) _ b hra hb _ _ hralen
+    intro hwb
+    have := hal8 e he hwb
+    simp only [List.length_drop]
+    omega
+  refine ⟨?_, ?_, ?_, ?_⟩
+  · exact forall2_snoc h.done hcol
+  · intro j x hj
+    simp only [List.length_append, List.length_singleton] at hj
+    simp only []
+    rw [resumeAt_append, List.mem_append, List.mem_append, h.pend j x (by omega)]
+    apply or_congr Iff.rfl
+    rw [mem_scanCol]
+    unfold scanCol resumeAt
+    rw [List.flatMap_assoc, List.mem_flatMap]
+    constructor
+    · rintro ⟨e, he, hx⟩
+      have heB := (hcol e).mp he
+      refine ⟨e, heB, ?_⟩
+      have := hcut e heB
+      unfold resumeAt at this
+      rw [← this]
+      exact hx
+    · rintro ⟨e, heB, hx⟩
+      refine ⟨e, (hcol e).mpr heB, ?_⟩
+      have := hcut e heB
+      unfold resumeAt at this
+      rw [this]
+      exact hx
+  · intro q hq
+    simp only [] at hq
+    rw [List.mem_append] at hq
+    rcases hq with hq | hq
+    · exact h.wfB q hq
+    · rw [mem_scanCol] at hq
+      obtain ⟨e, he, hx⟩ := hq
+      exact (scanEntry_out eng R md hR _ e (hwfcol e he) _ _ _ hralen q.1 q.2 hx).1
+  · intro q hq
+    simp only [] at hq
+    rw [List.mem_append] at hq
+    rcases hq with hq | hq
+    · exact h.leB q hq
+    · rw [mem_scanCol] at hq
+      obtain ⟨e, he, hx⟩ := hq
+      obtain ⟨_, _, h3, h4⟩ := scanEntry_out eng R md hR _ e (hwfcol e he) _ _ _ hralen q.1 q.2 hx
+      by_cases hwb : wantsBytes eng e
+      · have h8 := hal8 e he hwb
+        have := h3 hwb
+        simp only [List.length_drop] at this
+        omega
+      · have := (h4 hwb).1
+        omega
+
+/-- all columns before the cut -/
+theorem sim_phase1 (hL : eng.Lawful) (hR : CutStable R) (a b : Units) (hb : b ≠ []) (s : PState ι)
+    (hwf : s.WF eng) (hset : s.Settled) (hk0 : s.done.length % 8 = 0) (ha : a ≠ [])
+    (hal : ∀ p, p < 8 * a.length →
+      (s.done.length + p) % 8 ≠ 0 →
+      ∀ e ∈ eng.close (feedFrom eng R md (a ++ b) 0 p s).done
+          (seedAt (feedFrom eng R md (a ++ b) 0 p s).pend (feedFrom eng R md (a ++ b) 0 p s).done.length),
+        ¬ wantsBytes eng e) :
+    ∀ p, p ≤ 8 * a.length →
+      Sim eng R md (s.done.length + 8 * a.length) b (feedFrom eng R md (a ++ b) 0 p s)
+        (feedFrom eng R md a 0 p s)
+  | 0, _ => by
+    have : 0 < a.length := List.length_pos_iff.mpr ha
+    exact sim_init eng R md s hwf hset _ (by omega) b
+  | p + 1, hp => by
+    have ih := sim_phase1 hL hR a b hb s hwf hset hk0 ha hal p (by omega)
+    rw [feedFrom_succ_end, feedFrom_succ_end]
+    simp only [Nat.zero_add]
+    have hlenp : (feedFrom eng R md (a ++ b) 0 p s).done.length = s.done.length + p :=
+      feedFrom_done_length eng R md _ p 0 s
+    have halp := hal p (by omega)
+    rw [hlenp] at halp
+    exact sim_step eng R md hL hR a b hb s.done.length p (by omega) hk0 ih hlenp halp
+
+/-- the column at the cut: from here on both runs are in equivalent states -/
+theorem sim_handover (hL : eng.Lawful) (hR : CutStable R) (a b : Units) (hb : b ≠ []) (bd : Nat)
+    {sA sB : PState ι} (h : Sim eng R md bd b sA sB) (hk : sA.done.length = bd) :
+    (procCol eng R md (a ++ b) a.length sA).Equiv (procCol eng R md b 0 sB) := by
+  have hlen := forall2_length h.done
+  have hkB : sB.done.length = bd := by rw [← hlen]; exact hk
+  have hsh := procCol_shift eng R md a b hb 0 sA
+  simp only [Nat.add_zero] at hsh
+  rw [hsh, procCol_eq eng R md _ _ sA _ hk, procCol_eq eng R md _ _ sB _ hkB]
+  -- seeds: A has exactly B's ordinary states
+  have hseedA : ∀ e, e ∈ seedAt sA.pend bd ↔ (e ∈ seedAt sB.pend bd ∧ e.inc = false) := by
+    intro e
+    rw [mem_seedAt, mem_seedAt, h.pend _ e (by omega)]
+    exact mem_resumeAt_eq eng R md hR hb h.wfB
+  have hcore : CoreEq (seedAt sA.pend bd) (seedAt sB.pend bd) := by
+    intro e
+    simp only [mem_core, hseedA e]
+    constructor
+    · rintro ⟨⟨h1, _⟩, h2⟩; exact ⟨h1, h2⟩
+    · rintro ⟨h1, h2⟩; exact ⟨⟨h1, h2⟩, h2⟩
+  have hdone := all2_setEq_coreEq h.done
+  have hcolcore := hL.close_core _ _ _ _ hdone hcore
+  have hnoinc : ∀ e ∈ eng.close sA.done (seedAt sA.pend bd), e.inc = false := by
+    intro e he
+    cases hi : e.inc with
+    | false => rfl
+    | true =>
+      have := (hL.close_inc _ _ e hi).mp he
+      rw [hseedA e] at this
+      rw [this.2] at hi
+      cases hi
+  constructor
+  · exact forall2_snoc hdone hcolcore
+  · intro j x hj
+    simp only [List.length_append, List.length_singleton] at hj
+    simp only []
+    rw [List.mem_append, List.mem_append, mem_scanCol, mem_scanCol, h.pend j x (by omega), mem_resumeAt]
+    simp only [List.drop_zero]
+    constructor
+    · rintro ((⟨h1, _⟩ | ⟨e0, hp, hi, hx⟩) | ⟨e, he, hx⟩)
+      · have := h.leB _ h1
+        simp only at this; omega
+      · right
+        refine ⟨e0, ?_, hx⟩
+        rw [hL.close_inc _ _ e0 hi, mem_seedAt]
+        exact hp
+      · right
+        refine ⟨e, ?_, hx⟩
+        have hi := hnoinc e he
+        have := (hcolcore e).mp (mem_core.mpr ⟨he, hi⟩)
+        exact (mem_core.mp this).1
+    · rintro (h1 | ⟨e, he, hx⟩)
+      · have := h.leB _ h1
+        simp only at this; omega
+      · cases hi : e.inc with
+        | true =>
+          left; right
+          refine ⟨e, ?_, hi, hx⟩
+          have := (hL.close_inc _ _ e hi).mp he
+          rw [mem_seedAt] at this
+          exact this
+        | false =>
+          right
+          refine ⟨e, ?_, hx⟩
+          have := (hcolcore e).mpr (mem_core.mpr ⟨he, hi⟩)
+          exact (mem_core.mp this).1
+
+/-- alignment of the whole run, column by column -/
+theorem aligned_cols (word : Units) (s : PState ι) (n : Nat)
+    (hal : (feedFrom eng R md word 0 n s).Aligned eng) :
+    ∀ p, p < n → (s.done.length + p) % 8 ≠ 0 →
+      ∀ e ∈ eng.close (feedFrom eng R md word 0 p s).done
+          (seedAt (feedFrom eng R md word 0 p s).pend (feedFrom eng R md word 0 p s).done.length),
+        ¬ wantsBytes eng e := by
+  intro p hp h8 e he
+  have hsplit : n = (p + 1) + (n - (p + 1)) := by omega
+  rw [hsplit, feedFrom_add] at hal
+  apply hal (s.done.length + p) _ _ h8 e he
+  apply feedFrom_done_get
+  rw [feedFrom_succ_end, procCol_done]
+  have hl : (feedFrom eng R md word 0 p s).done.length = s.done.length + p := feedFrom_done_length eng R md word p 0 s
+  rw [List.getElem?_append_right (by omega), hl]
+  simp
+
+/-- **feeding `a` and then `b` reaches a state equivalent to feeding `a ++ b`** -/
+theorem feed_append (hL : eng.Lawful) (hR : CutStable R) (s : PState ι) (hwf : s.WF eng) (hset : s.Settled)
+    (hk0 : s.done.length % 8 = 0) (a b : Units) (hal : (feed eng R md s (a ++ b)).Aligned eng) :
+    (feed eng R md s (a ++ b)).Equiv (feed eng R md (feed eng R md s a) b) := by
+  by_cases hb : b = []
+  · subst hb
+    simp only [List.append_nil]
+    exact PState.Equiv.refl _
+  by_cases ha : a = []
+  · subst ha
+    simp only [List.nil_append]
+    exact PState.Equiv.refl _
+  have hb0 : 0 < b.length := List.length_pos_iff.mpr hb
+  unfold feed at hal ⊢
+  have hcols := aligned_cols eng R md (a ++ b) s _ hal
+  have hphase1 := sim_phase1 eng R md hL hR a b hb s hwf hset hk0 ha
+    (fun p hp => hcols p (by simp only [List.length_append]; omega)) (8 * a.length) (Nat.le_refl _)
+  -- split run A at the cut, and one column later
+  obtain ⟨q, hq⟩ : ∃ q, 8 * b.length = 1 + q := ⟨8 * b.length - 1, by omega⟩
+  have hsplitA : 8 * (a ++ b).length = 8 * a.length + (1 + q) := by
+    simp only [List.length_append]; omega
+  rw [hsplitA, feedFrom_add, feedFrom_add, hq, feedFrom_add]
+  simp only [Nat.zero_add]
+  have hk : (feedFrom eng R md (a ++ b) 0 (8 * a.length) s).done.length = s.done.length + 8 * a.length :=
+    feedFrom_done_length eng R md _ _ 0 s
+  have hhand := sim_handover eng R md hL hR a b hb _ hphase1 hk
+  have h1A : feedFrom eng R md (a ++ b) (8 * a.length) 1 (feedFrom eng R md (a ++ b) 0 (8 * a.length) s) =
+      procCol eng R md (a ++ b) a.length (feedFrom eng R md (a ++ b) 0 (8 * a.length) s) := by
+    simp only [feedFrom]
+    have : 8 * a.length / 8 = a.length := by omega
+    rw [this]
+  have h1B : feedFrom eng R md b 0 1 (feedFrom eng R md a 0 (8 * a.length) s) =
+      procCol eng R md b 0 (feedFrom eng R md a 0 (8 * a.length) s) := by
+    simp only [feedFrom]
+  rw [h1A, h1B]
+  exact feedFrom_shift eng R md hL a b hb _ 1 hhand
+
+/-- if the run on the whole input is aligned, so is the run on a prefix of it -/
+theorem aligned_prefix (hL : eng.Lawful) (hR : CutStable R) (s : PState ι) (hwf : s.WF eng) (hset : s.Settled)
+    (hk0 : s.done.length % 8 = 0) (a b : Units) (hal : (feed eng R md s (a ++ b)).Aligned eng) :
+    (feed eng R md s a).Aligned eng := by
+  by_cases hb : b = []
+  · subst hb; simpa using hal
+  by_cases ha : a = []
+  · subst ha
+    intro k col hget h8 e he
+    unfold feed at hal
+    exact hal k col (feedFrom_done_get eng R md _ _ 0 s k col (by simpa [feed, feedFrom] using hget)) h8 e he
+  unfold feed at hal ⊢
+  have hcols := aligned_cols eng R md (a ++ b) s _ hal
+  have hphase1 := sim_phase1 eng R md hL hR a b hb s hwf hset hk0 ha
+    (fun p hp => hcols p (by simp only [List.length_append]; omega)) (8 * a.length) (Nat.le_refl _)
+  intro k col hget h8 e he
+  obtain ⟨col', hget', hse⟩ := all2_get hphase1.done k col hget
+  have hsplitA : 8 * (a ++ b).length = 8 * a.length + 8 * b.length := by
+    simp only [List.length_append]; omega
+  rw [hsplitA, feedFrom_add] at hal
+  exact hal k col' (feedFrom_done_get eng R md _ _ _ _ k col' hget') h8 e ((hse e).mpr he)
+
+/-- **any way of cutting the input reaches an equivalent state** -/
+theorem chunking (hL : eng.Lawful) (hR : CutStable R) (s : PState ι) (hwf : s.WF eng) (hset : s.Settled)
+    (hk0 : s.done.length % 8 = 0) : ∀ (rs : List Units),
+    (feed eng R md s rs.reverse.flatten).Aligned eng →
+    (feed eng R md s rs.reverse.flatten).Equiv (rs.reverse.foldl (feed eng R md) s)
+  | [], _ => by
+    simp only [List.reverse_nil, List.flatten_nil, List.foldl_nil]
+    exact PState.Equiv.refl _
+  | p :: rs, hal => by
+    simp only [List.reverse_cons, List.flatten_append, List.flatten_cons, List.flatten_nil,
+      List.append_nil, List.foldl_append, List.foldl_cons, List.foldl_nil] at hal ⊢
+    have halpre := aligned_prefix eng R md hL hR s hwf hset hk0 _ _ hal
+    have ih := chunking hL hR s hwf hset hk0 rs halpre
+    exact (feed_append eng R md hL hR s hwf hset hk0 _ p hal).trans (feed_congr eng R md hL p ih)
+
+/-! #### `can_continue` -/
+
+/-- nothing is scheduled for the current or a later column -/
+def PState.Dead (s : PState ι) : Prop := ∀ p ∈ s.pend, p.1 < s.done.length
+
+theorem seedAt_dead {s : PState ι} (h : s.Dead) : seedAt s.pend s.done.length = [] := by
+  apply List.eq_nil_iff_forall_not_mem.mpr
+  intro e he
+  rw [mem_seedAt] at he
+  have := h _ he
+  simp only at this; omega
+
+theorem procCol_dead (hC : eng.LawfulCC) (word : Units) (w : Nat) {s : PState ι} (h : s.Dead) :
+    (procCol eng R md word w s).Dead := by
+  intro p hp
+  rw [procCol_pend, seedAt_dead h, hC.close_nil] at hp
+  simp only [scanCol, List.flatMap_nil, List.append_nil] at hp
+  rw [procCol_done]
+  have := h p hp
+  simp only [List.length_append, List.length_singleton]
+  omega
+
+theorem feedFrom_dead (hC : eng.LawfulCC) (word : Units) : ∀ (n i : Nat) {s : PState ι}, s.Dead →
+    (feedFrom eng R md word i n s).Dead
+  | 0, _, _, h => h
+  | n + 1, i, _, h => by
+    simp only [feedFrom]
+    exact feedFrom_dead hC word n (i + 1) (procCol_dead eng R md hC word (i / 8) h)
+
+/-- **`can_continue() = False` is final**: no non-empty further input yields a complete parse -/
+theorem canContinue_false_no_parse (hC : eng.LawfulCC) (s : PState ι) (hset : s.Settled)
+    (hcc : canContinue eng s = false) (v : Units) (hv : v ≠ []) :
+    completeParses eng (feed eng R md s v) = [] := by
+  have hv0 : 0 < v.length := List.length_pos_iff.mpr hv
+  unfold canContinue at hcc
+  split at hcc
+  · cases hcc
+  · rw [List.any_eq_false] at hcc
+    have hstuck := hC.close_stuck s.done (seedAt s.pend s.done.length) (by
+      intro e he
+      have := hcc e he
+      simp only [Bool.or_eq_true, Bool.not_eq_true', not_or, Bool.not_eq_true, Bool.not_eq_false] at this
+      exact this)
+    -- the first column schedules nothing
+    have hfirst : (procCol eng R md v 0 s).Dead := by
+      intro p hp
+      rw [procCol_pend, List.mem_append] at hp
+      rw [procCol_done]
+      simp only [List.length_append, List.length_singleton]
+      rcases hp with hp | hp
+      · have := hset p hp; omega
+      · rw [mem_scanCol] at hp
+        obtain ⟨e, he, hx⟩ := hp
+        simp [scanEntry, hstuck e he] at hx
+    have hsplit : 8 * v.length = (8 * v.length - 1) + 1 := by omega
+    unfold feed
+    have : feedFrom eng R md v 0 (8 * v.length) s =
+        feedFrom eng R md v 1 (8 * v.length - 1) (procCol eng R md v 0 s) := by
+      conv => lhs; rw [hsplit]
+      have : 8 * v.length - 1 + 1 = (8 * v.length - 1).succ := rfl
+      simp only [feedFrom]
+    rw [this]
+    have hdead := feedFrom_dead eng R md hC v (8 * v.length - 1) 1 hfirst
+    unfold completeParses lastCol
+    rw [seedAt_dead hdead, hC.close_nil, hC.trees_nil]
+
+/-! #### the hypotheses of `feed_append` are invariants of `feed` -/
+
+/-- what `feed_append` asks of the state it starts from -/
+structure PState.Ready (eng : Engine ι) (s : PState ι) : Prop where
+  wf : s.WF eng
+  settled : s.Settled
+  bytes : s.done.length % 8 = 0
+
+theorem start_ready (i : ι) : (start i).Ready eng := by
+  refine ⟨?_, ?_, rfl⟩
+  · intro p hp
+    simp only [start, List.mem_singleton] at hp
+    subst hp
+    exact fresh_wf eng i
+  · intro p hp
+    simp only [start, List.mem_singleton] at hp
+    subst hp
+    simp [start]
+
+theorem feedFrom_inv (hL : eng.Lawful) (hR : CutStable R) (a : Units) (s : PState ι)
+    (hwf : s.WF eng) (hk0 : s.done.length % 8 = 0) (bd : Nat) (hbd : bd = s.done.length + 8 * a.length)
+    (hle : ∀ q ∈ s.pend, q.1 ≤ bd)
+    (hal : (feedFrom eng R md a 0 (8 * a.length) s).Aligned eng) :
+    ∀ p, p ≤ 8 * a.length →
+      (feedFrom eng R md a 0 p s).WF eng ∧ ∀ q ∈ (feedFrom eng R md a 0 p s).pend, q.1 ≤ bd
+  | 0, _ => ⟨hwf, hle⟩
+  | p + 1, hp => by
+    obtain ⟨ihwf, ihle⟩ := feedFrom_inv hL hR a s hwf hk0 bd hbd hle hal p (by omega)
+    have hlenp : (feedFrom eng R md a 0 p s).done.length = s.done.length + p :=
+      feedFrom_done_length eng R md _ p 0 s
+    have hcols := aligned_cols eng R md a s _ hal p (by omega)
+    rw [hlenp] at hcols
+    rw [feedFrom_succ_end, procCol_eq eng R md _ _ _ _ hlenp]
+    simp only [Nat.zero_add]
+    have hwfcol : ∀ e ∈ eng.close (feedFrom eng R md a 0 p s).done
+        (seedAt (feedFrom eng R md a 0 p s).pend (s.done.length + p)), e.WF eng := by
+      apply hL.close_wf
+      intro e he
+      rw [mem_seedAt] at he
+      exact ihwf _ he
+    have hw : p / 8 < a.length := by omega
+    have hralen : (a.drop (p / 8)).length + p / 8 = a.length := by
+      simp only [List.length_drop]; omega
+    constructor
+    · intro q hq
+      try simp only [] at hq
+      rw [List.mem_append] at hq
+      rcases hq with hq | hq
+      · exact ihwf q hq
+      · rw [mem_scanCol] at hq
+        obtain ⟨e, he, hx⟩ := hq
+        exact (scanEntry_out eng R md hR _ e (hwfcol e he) _ _ _ hralen q.1 q.2 hx).1
+    · intro q hq
+      try simp only [] at hq
+      rw [List.mem_append] at hq
+      rcases hq with hq | hq
+      · exact ihle q hq
+      · rw [mem_scanCol] at hq
+        obtain ⟨e, he, hx⟩ := hq
+        obtain ⟨_, _, h3, h4⟩ := scanEntry_out eng R md hR _ e (hwfcol e he) _ _ _ hralen q.1 q.2 hx
+        by_cases hwb : wantsBytes eng e
+        · have h8 : (s.done.length + p) % 8 = 0 := by
+            rcases Nat.eq_zero_or_pos ((s.done.length + p) % 8) with h0 | h0
+            · exact h0
+            · exact absurd hwb (hcols (by omega) e he)
+          have := h3 hwb
+          simp only [List.length_drop] at this
+          omega
+        · have := (h4 hwb).1
+          omega
+
+theorem feed_ready (hL : eng.Lawful) (hR : CutStable R) (s : PState ι) (hs : s.Ready eng) (a : Units)
+    (hal : (feed eng R md s a).Aligned eng) : (feed eng R md s a).Ready eng := by
+  unfold feed at hal ⊢
+  have hlen : (feedFrom eng R md a 0 (8 * a.length) s).done.length = s.done.length + 8 * a.length :=
+    feedFrom_done_length eng R md _ _ 0 s
+  obtain ⟨h1, h2⟩ := feedFrom_inv eng R md hL hR a s hs.wf hs.bytes _ rfl
+    (fun q hq => by have := hs.settled q hq; omega) hal (8 * a.length) (Nat.le_refl _)
+  refine ⟨h1, ?_, ?_⟩
+  · intro q hq
+    rw [hlen]
+    exact h2 q hq
+  · rw [hlen]
+    have := hs.bytes
+    omega
+
+end runs
 
 end Incr
 end FV
